@@ -1,8 +1,9 @@
-(* Extraction of the save model (C09): the list of file-system calls of one state_write.
+(* Extraction for C09: the list of file-system calls of one state_write (SaveModel) and the accept/reject class of the
+   content loader in no-configuration mode (CodecModel.decode through NoConfModel).
    ExtrOcamlBasic only; N / positive / nat stay inductive. *)
 Require Import ExtrOcamlBasic.
 From Coq Require Import NArith List.
-From Snap.Content Require Import SaveModel.
+From Snap.Content Require Import SaveModel NoConfModel.
 Extraction Language OCaml.
 Set Extraction Optimize.
-Extraction "../ocaml/C09/c09_ext.ml" SaveModel.save_calls.
+Extraction "../ocaml/C09/c09_ext.ml" SaveModel.save_calls NoConfModel.decode_class.
